@@ -30,6 +30,20 @@ let handle (ws : string list) : string = match ws with
       let n = List.length table in
       let one f = String.concat "|" (List.init n (fun c -> res_s (f table (nat_of_int c)))) in
       "M " ^ one C.mypy_mro ^ " C " ^ one C.cpython_mro ^ " W " ^ (if C.wf_tableb table then "1" else "0")
+  | ["binds"; fs; ps; ks] ->
+      (* binds <formals> <P|S<len>,...> <N<id>|T<id>.<id>...,...> *)
+      let formals = if fs = "-" then [] else List.map formal_of (String.split_on_char ',' fs) in
+      let pit w = if w = "P" then C.PPos else C.PStar (nat_of_int (int_of_string (String.sub w 1 (String.length w - 1)))) in
+      let kit w = let r = String.sub w 1 (String.length w - 1) in
+        if w.[0] = 'N' then C.KName (nat_of_int (int_of_string r)) else C.KTD (nats '.' r) in
+      let c = { C.pitems = (if ps = "-" then [] else List.map pit (String.split_on_char ',' ps));
+                C.kitems = (if ks = "-" then [] else List.map kit (String.split_on_char ',' ks)) } in
+      let f2a = C.map_actuals_to_formals_s formals c in
+      let b x = if x then "1" else "0" in
+      "M " ^ b (C.mypy_accepts_s formals c)
+      ^ " C " ^ (match C.cpython_bind_s formals c with C.BindOk -> "1" | C.TypeError -> "0")
+      ^ " W " ^ b (C.shape formals) ^ b (C.no_L1 formals c) ^ b (C.no_L2 formals c) ^ b (C.no_L3 c)
+      ^ " F =" ^ String.concat "" (List.map (fun l -> String.concat "," (List.map (fun a -> string_of_int (int_of_nat (C.idx a))) l) ^ ";") f2a)
   | ["mrolast"; tbl] ->
       let table = List.map (nats ',') (String.split_on_char ';' tbl) in
       let c = nat_of_int (List.length table - 1) in
